@@ -19,11 +19,12 @@ class Unit:
         self.lines = prelude.split("\n")
         self.obls = {}  # line number (1-based) -> dict
 
-    def add(self, key, desc, code, must_fail=None):
-        """code must be a single line."""
+    def add(self, key, desc, code, must_fail=None, separate=False):
+        """code must be a single line. separate: compile prelude + this line as its own unit (needed
+        when the obligation's errors come from instantiations pending until the end of the unit)."""
         assert "\n" not in code
         self.lines.append(code)
-        self.obls[len(self.lines)] = {"key": key, "desc": desc, "must_fail": must_fail, "code": code}
+        self.obls[len(self.lines)] = {"key": key, "desc": desc, "must_fail": must_fail, "code": code, "separate": separate or must_fail is not None}
 
     def raw(self, text):
         for l in text.split("\n"):
@@ -34,8 +35,22 @@ class Unit:
 
 
 def run_unit(run, rule, unit, ndebug=True, extra=()):
-    """compiles the unit, records one instance per obligation; returns list of (obl, ok, message)."""
-    rc, err, src = common.syntax_only(run, unit.source(), unit.name, ndebug=ndebug, extra=extra)
+    """compiles the unit, records one instance per obligation; returns list of (obl, ok, message).
+    Must-fail obligations are compiled one by one (prelude + that line): errors raised by pending
+    instantiations at the end of a unit carry no note that leads back to the line that caused them."""
+    mf = {ln: ob for ln, ob in unit.obls.items() if ob["separate"]}
+    mf_res = {}
+    if mf:
+        def one(item):
+            ln, ob = item
+            lines = [l for k, l in enumerate(unit.lines, 1) if k not in unit.obls] + [ob["code"]]
+            rc1, err1, _ = common.syntax_only(run, "\n".join(lines) + "\n", "%s_mf%d" % (unit.name, ln), ndebug=ndebug, extra=extra)
+            msgs = [m.group("msg") for m in (DIAG.match(x) for x in err1.splitlines()) if m and m.group("kind") in ("error", "fatal error")]
+            return ln, msgs
+        for ln, msgs in common.parallel(one, list(mf.items())):
+            mf_res[ln] = msgs
+    main_lines = [("" if k in mf else l) for k, l in enumerate(unit.lines, 1)]
+    rc, err, src = common.syntax_only(run, "\n".join(main_lines) + "\n", unit.name, ndebug=ndebug, extra=extra)
     base = os.path.basename(src)
     # group diagnostics: each error with its following notes
     groups = []
@@ -66,6 +81,8 @@ def run_unit(run, rule, unit, ndebug=True, extra=()):
     results = []
     for ln, ob in sorted(unit.obls.items()):
         msgs = failed.get(ln)
+        if ln in mf_res:
+            msgs = mf_res[ln] or None
         if ob["must_fail"] is None:
             ok = msgs is None
             msg = None if ok else "does not hold / does not compile: " + msgs[0][:300]
